@@ -7,7 +7,7 @@ import ast
 
 from ..astutil import (call_name, calls_in, walk_no_nested, params_of, kw,
                        dotted, opt_read)
-from ..cfg import cfg_of, expr_owner_node
+from ..cfg import cfg_of, expr_owner_node, facts_at
 from ..fold import (Folder, FuncRef, ClassRef, Inst, Namespace, GuardedList,
                     Guarded, ModRef, Sym, OptNS)
 from ..loader import Program, AnalysisError, unparse
@@ -335,23 +335,40 @@ def _bind_loop_vars(loops, g, modname, cname, opt, prog):
     ``for mname, mopt in theory.get_mutators().items()`` and bind their
     variables for one registry entry."""
     env = {}
+
+    def bind(t, v):
+        if isinstance(t, ast.Name):
+            env[t.id] = v
+            return True
+        if isinstance(t, (ast.Tuple, ast.List)) and isinstance(
+                v, (tuple, list)) and len(t.elts) == len(v):
+            return all(bind(a, b) for a, b in zip(t.elts, v))
+        return False
+
     for lp in loops:
         it = unparse(lp.iter)
         t = lp.target
-        if it == 'get_all_mutators().items()' and isinstance(
-                t, ast.Tuple) and len(t.elts) == 2:
-            env[t.elts[0].id] = g
-            env[t.elts[1].id] = (ModRef(prog.mod(modname)),
-                                 dict(options_table.registry(prog)[g][1]))
-        elif it.endswith('.get_mutators().items()') and isinstance(
-                t, ast.Tuple) and len(t.elts) == 2:
-            env[t.elts[0].id] = cname
-            env[t.elts[1].id] = opt
-        elif isinstance(lp.iter, ast.Call) and it.endswith(
-                '[1].items()') and isinstance(t, ast.Tuple):
-            env[t.elts[0].id] = cname
-            env[t.elts[1].id] = opt
+        grp = (ModRef(prog.mod(modname)),
+               dict(options_table.registry(prog)[g][1]))
+        if it == 'get_all_mutators().items()':
+            ok = bind(t, (g, grp))
+        elif it == 'get_all_mutators().values()':
+            ok = bind(t, grp)
+        elif it == 'get_all_mutators()' or it == 'get_all_mutators().keys()':
+            ok = bind(t, g)
+        elif it.endswith('.get_mutators().items()') or (
+                isinstance(lp.iter, ast.Call) and it.endswith('[1].items()')):
+            ok = bind(t, (cname, opt))
+        elif it.endswith('.get_mutators().values()') or (
+                isinstance(lp.iter, ast.Call)
+                and it.endswith('[1].values()')):
+            ok = bind(t, opt)
+        elif it.endswith('.get_mutators()') or (
+                isinstance(lp.iter, ast.Call) and it.endswith('[1].keys()')):
+            ok = bind(t, cname)
         else:
+            return None
+        if not ok:
             return None
     return env
 
@@ -679,12 +696,19 @@ def rule_r5(chk, prog, reg, table):
                     c.func, ast.Attribute) and c.func.attr in PROTOCOL:
                 nrecv += 1
                 recv = unparse(c.func.value)
+                fn_ = c
+                while fn_ is not None and not isinstance(
+                        fn_, ast.FunctionDef):
+                    fn_ = getattr(fn_, '_parent', None)
+                if fn_ is not None:
+                    from ..astutil import expand_locals
+                    recv = unparse(expand_locals(fn_, c.func.value))
                 ok = recv == 'self.mutator' or _ranges_over_pass(c)
                 chk.check('C14.R5', f'{modname}.{_enclosing_func_name(c)}',
                           c, ok, f'protocol method called on "{recv}", which '
                           'is not recognised as an element of a pass list',
                           loc=sm.loc(c))
-    chk.floor('C14.R5', 'protocol call sites in the strategies', nrecv, 8)
+    chk.floor('C14.R5', 'protocol call sites in the strategies', nrecv, 4)
 
 
 def _ranges_over_pass(call):
@@ -985,19 +1009,33 @@ def rule_r8(chk, prog, reg):
             if isinstance(sub, ast.Subscript) and isinstance(
                     sub.value, ast.Name) and sub.value.id == param and \
                     isinstance(sub.slice, ast.Constant):
-                node = expr_owner_node(cfg, sub)
-                facts = IN.get(node) or frozenset()
+                facts = facts_at(f, sub)
                 cmds = set()
                 for (t, p) in facts:
-                    if p and t.startswith(f'{param}.get_ident()'):
-                        try:
-                            e = ast.parse(t, mode='eval').body
-                            for c in ast.walk(e):
-                                if isinstance(c, ast.Constant) and isinstance(
-                                        c.value, str):
-                                    cmds.add(c.value)
-                        except SyntaxError:
-                            pass
+                    if not (p and t.startswith(f'{param}.get_ident()')):
+                        continue
+                    try:
+                        e = ast.parse(t, mode='eval').body
+                    except SyntaxError:
+                        continue
+                    if not (isinstance(e, ast.Compare) and len(e.ops) == 1
+                            and isinstance(e.ops[0], (ast.In, ast.Eq))):
+                        continue
+                    rhs = e.comparators[0]
+                    try:
+                        from ..astutil import module_const
+                        v = module_const(m, rhs)
+                    except ValueError:
+                        v = None
+                    if isinstance(v, str):
+                        cmds.add(v)
+                    elif isinstance(v, (tuple, list, set, frozenset)):
+                        cmds.update(x for x in v if isinstance(x, str))
+                    else:
+                        for c in ast.walk(rhs):
+                            if isinstance(c, ast.Constant) and isinstance(
+                                    c.value, str):
+                                cmds.add(c.value)
                 for c in cmds:
                     found.setdefault(c, set()).add(sub.slice.value)
         n += 1
